@@ -49,9 +49,11 @@ func genC19(c *Ctx) {
 	c19Derived(c)
 	c19DerivedAccessors(c)
 	c19Codecs(c)
+	c19CodecKeys(c)
 	c19Aliases(c)
 	c19BgvRejects(c)
 	c19LogNRange(c)
+	c19DistUsable(c)
 	c19Exported(c)
 	c19Table(c)
 	c19Hangs(c) // inputs on which the unpatched code never returned
